@@ -1,6 +1,7 @@
 /-
   C11 — the majority heuristic is a sequential pairwise tournament.
-  Property theorems only (helper lemmas: Rdm/Lemmas/HeurMajority.lean, HeurLinks.lean, HeurList.lean).
+  Property theorems only (helper lemmas: Rdm/Lemmas/HeurMajority.lean, HeurLinks.lean, HeurList.lean,
+  HeurH11.lean — the simulation of the checker's replay by the model's fold and the exact link lists).
   Structural theorems are generic in the number type (they hold for the Float model the driver runs
   against the implementation and for the Rat model) and for every length of the search order; the
   statements about scores as weight sums are over `Rat`.
@@ -8,6 +9,8 @@
   Model: Rdm/Model/Heuristics.lean (`shuffleLoop`, `searchOrder`, `compareLoop`, `takeBetter`, the four
   resolvers, `majorityFold`, `majorityGroups`, `majorityTournament`) and Rdm/Model/Links.lean
   (`majorityRanking` = prepareRanking); spec evaluated on the implementation's output: Rdm/Spec/C11.lean.
+  `tournament_output_passes_spec` / `model_output_passes_spec` prove that this very checker accepts the
+  model's output on every well-conditioned input (see there for the one extra hypothesis).
 -/
 import Rdm.Model.Heuristics
 import Rdm.Spec.C11
@@ -15,6 +18,7 @@ import Rdm.Lemmas.NumRat
 import Rdm.Lemmas.HeurList
 import Rdm.Lemmas.HeurLinks
 import Rdm.Lemmas.HeurMajority
+import Rdm.Lemmas.HeurH11
 import Mathlib.Tactic.Linarith
 import Mathlib.Tactic.NormNum
 set_option linter.unusedSectionVars false
@@ -272,25 +276,129 @@ theorem shuffle_is_permutation {β : Type} (l : List β) (ds : Draws α) (l' : L
     (h : shuffleAlts l ds = Except.ok (l', ds')) : l'.Perm l ∧ ds' = ds.drop (l.length - 1) :=
   ⟨shuffleLoop_perm _ _ _ _ _ h, shuffleLoop_draws _ _ _ _ _ h⟩
 
-/-
-  Not proved (checked on every run by `Spec.C11.check` on the implementation's output and by the
-  bit-exact correspondence of `majority-evaluate`):
+/-! ### the spec checker accepts the model's output -/
 
-  theorem model_output_passes_spec_partial (Rat) :
-      majorityTournament pol wc first rest d = .ok out → ids Nodup → well-conditioned margins →
-      Spec.C11.check wc (first :: rest) pol.name out = true
-  The clauses of the checker are proved above on the model one by one: permutation of the search
-  order, winner first without opponent, every loser's report faithful (`loser_entry_semantics`,
-  `scores_are_weight_sums`), opponent in the same or a later group, singleton groups unless draws are
-  allowed, links inside the ranking, policy semantics.  Missing: the exact link lists (previous group ++
-  peers — a statement about `majorityRanking` of Model/Links.lean, shared with C01) and the mechanical
-  translation into the checker's replay formulation.
--/
+/-- the policy string handed to the checker (`params.DrawResolution`: a resolver's identifier, or ""
+    for the default) selects the resolver the model plays with -/
+theorem findPolicy_policyOk (dr : String) (pol : DrawPolicy) (h : findPolicy dr = Except.ok pol) :
+    heurH11_policyOk pol dr := by
+  have hr : registeredPolicies = [.allow, .current, .newer, .random] := by decide
+  unfold findPolicy at h
+  by_cases hb : dr = ""
+  · subst hb
+    simp [hr] at h
+    exact Or.inr ⟨rfl, h.symm⟩
+  · have hb' : (dr == "") = false := by simpa using hb
+    simp only [hb', hr] at h
+    left
+    cases hf : List.find? (fun p : DrawPolicy => p.name == dr) [.allow, .current, .newer, .random] with
+    | none => rw [hf] at h; simp at h
+    | some q =>
+      rw [hf] at h
+      simp at h; subst h
+      have hq : q.name = dr := by simpa using List.find?_some hf
+      exact hq.symm
+
+/-- **the checker accepts the tournament** (`Spec.C11.check`, exactly the function the driver op
+    `check-c11` evaluates on the implementation's output, here on the model's): for every search order
+    with pairwise distinct ids, every weighting, every one of the four policies and every draw sequence,
+    provided the input is *well conditioned*.
+
+    Why the extra hypothesis.  The code (and so the model) compares with `eps = float64(1e-6)`, the
+    checker with the exact rational 1e-6 of the property text (`eps_is_1e6`: they differ by < 1e-20,
+    the double being the smaller).  A criterion difference or a score difference `x` with
+    `float64(1e-6) < |x| ≤ 1e-6` is therefore a strict win for the code and a tie for the checker;
+    `heurH11_wellConditioned wc order` (decidable, on the inputs only) says that no pair of
+    alternatives of the search order has such a criterion or score difference.  The harness applies
+    the coarser filter `c11WellConditioned` (| |x| − 1e-6 | ≥ 1e-9·scale) before it calls the checker.
+    Under policy `random` the checker reads the coin off the output by testing whether the challenger's
+    `comparedWith` is the running winner's id; an alternative with the empty id would be confused
+    with "no opponent", hence `hrandom`. -/
+theorem tournament_output_passes_spec (pol : DrawPolicy) (policy : String) (hpol : heurH11_policyOk pol policy)
+    (wc : List (WCrit Rat)) (first : Alt Rat) (rest : List (Alt Rat)) (d : Draws Rat)
+    (out : List (Linked (MajEval Rat)))
+    (h : majorityTournament pol wc first rest d = Except.ok out)
+    (hnd : ((first :: rest).map (·.id)).Nodup)
+    (hwc : heurH11_wellConditioned wc (first :: rest) = true)
+    (hrandom : pol = .random → ∀ a ∈ first :: rest, a.id ≠ "") :
+    Spec.C11.check wc (first :: rest) policy out = true :=
+  heurH11_tournament_check hpol h hnd hwc hrandom
+
+/-- the search order has pairwise distinct ids as soon as the considered alternatives have (the
+    current choice, wherever it was looked up, is removed by id from the considered list) -/
+theorem search_order_nodup (d : DMP α) (cur : String) (rnd : Bool) (ds ds' : Draws α)
+    (first : Alt α) (rest : List (Alt α)) (hnd : (d.co.map (·.id)).Nodup)
+    (h : searchOrder d cur rnd ds = Except.ok ((first, rest), ds')) :
+    ((first :: rest).map (·.id)).Nodup := by
+  by_cases hc : cur = ""
+  · subst hc
+    exact ((searchOrder_without_current d rnd ds ds' first rest h).map _).nodup_iff.mpr hnd
+  · obtain ⟨hid, _, hperm⟩ := searchOrder_with_current d cur rnd ds ds' first rest hc h
+    have hp : (rest.map (·.id)).Perm ((d.co.map (·.id)).erase cur) := by
+      rw [← removeAlt_ids]; exact hperm.map _
+    simp only [List.map_cons, List.nodup_cons]
+    refine ⟨?_, hp.nodup_iff.mpr (hnd.erase _)⟩
+    intro hm
+    rw [hid] at hm
+    exact (List.Nodup.mem_erase_iff hnd).mp (hp.subset hm) |>.1 rfl
+
+/-- **model output passes the spec** — the full statement, with the checker called exactly as the
+    driver op `check-c11` / harness/main/c11.go call it: weighted criteria = `ZipWithWeights`, search
+    order as `GetAlternativesSearchOrder` returns it, policy = the request's `drawResolution` string.
+    Domain: considered alternatives with pairwise distinct ids; well-conditioned margins (see
+    `tournament_output_passes_spec`); no empty alternative id under `random`. -/
+theorem model_output_passes_spec (d : DMP Rat) (ds : Draws Rat) (w : KMap Rat) (cur : String) (seed : Int)
+    (rnd : Bool) (dr : String) (hmp : d.mp = .majority w cur seed rnd dr)
+    (out : List (Linked (MajEval Rat))) (h : majorityEvaluate d ds = Except.ok out)
+    (wc : List (WCrit Rat)) (hz : zipWithWeights d.crit w = Except.ok wc)
+    (first : Alt Rat) (rest : List (Alt Rat)) (ds' : Draws Rat)
+    (hso : searchOrder d cur rnd ds = Except.ok ((first, rest), ds'))
+    (hnd : (d.co.map (·.id)).Nodup)
+    (hwc : heurH11_wellConditioned wc (first :: rest) = true)
+    (hrandom : dr = "random" → ∀ a ∈ first :: rest, a.id ≠ "") :
+    Spec.C11.check wc (first :: rest) dr out = true := by
+  unfold majorityEvaluate at h
+  rw [hmp] at h
+  simp only [hz, hso, R.bind_ok] at h
+  obtain ⟨pol, hp, h⟩ := R.bind_eq_ok h
+  have hpol := findPolicy_policyOk dr pol hp
+  refine tournament_output_passes_spec pol dr hpol wc first rest ds' out h
+    (search_order_nodup d cur rnd ds ds' first rest hnd hso) hwc ?_
+  intro hr
+  apply hrandom
+  rcases hpol with e | ⟨_, e⟩
+  · rw [e, hr]; rfl
+  · rw [hr] at e; cases e
 
 /-! ### satisfiable hypotheses -/
 
 example : majorityTournament (α := Rat) .allow [] ⟨"a", []⟩ [] [] =
     Except.ok [⟨"a", ⟨0, "", 0⟩, []⟩] := rfl
+
+/-- the hypotheses of `tournament_output_passes_spec` are satisfiable: a well-conditioned search order
+    of three alternatives (gain and cost criterion), on which the checker accepts the model's output
+    under each deterministic policy -/
+example : heurH11_wellConditioned heurH11_exWc [heurH11_exA, heurH11_exB, heurH11_exC] = true := by
+  decide +kernel
+
+example : ([DrawPolicy.allow, .current, .newer].all fun pol =>
+    match majorityTournament pol heurH11_exWc heurH11_exA [heurH11_exB, heurH11_exC] [] with
+    | .ok out => Spec.C11.check heurH11_exWc [heurH11_exA, heurH11_exB, heurH11_exC] pol.name out
+    | .error _ => false) = true := by decide +kernel
+
+/-- … and `random` with the coin falling either way -/
+example : ([[(1 : Rat) / 4, 3 / 4], [3 / 4, 1 / 4]].all fun draws =>
+    match majorityTournament .random heurH11_exWc heurH11_exA [heurH11_exB, heurH11_exC] draws with
+    | .ok out => Spec.C11.check heurH11_exWc [heurH11_exA, heurH11_exB, heurH11_exC] "random" out
+    | .error _ => false) = true := by decide +kernel
+
+/-- the well-conditioning hypothesis cannot be dropped: with a criterion difference of exactly 1e-6
+    the code (and the model) scores a strict win, the exact-1e-6 checker a tie, and the checker rejects
+    the model's output -/
+example : heurH11_wellConditioned heurH11_gapWc [heurH11_gapA, heurH11_gapB] = false ∧
+    (match majorityTournament .allow heurH11_gapWc heurH11_gapA [heurH11_gapB] [] with
+     | .ok out => Spec.C11.check heurH11_gapWc [heurH11_gapA, heurH11_gapB] "allow" out
+     | .error _ => true) = false := by decide +kernel
 
 /-- the constants and names this property depends on were re-read from the working tree on this run
     (none fell back to its pinned value because its declaration could not be located) -/
